@@ -34,12 +34,20 @@ def _lower(ch: str) -> str:
     """Simple case mapping of one character: mappings that change the length
     ('İ'.lower(), 'ß'.upper()) do not apply, as in ECMAScript's Canonicalize."""
     folded = ch.lower()
-    return folded if len(folded) == 1 else ch
+    return folded if len(folded) == 1 and not (ch >= "\x80" > folded) else ch
 
 
 def _upper(ch: str) -> str:
+    # (nor do mappings from a non-ASCII character to an ASCII one: 'ſ' is not 's')
     folded = ch.upper()
-    return folded if len(folded) == 1 else ch
+    return folded if len(folded) == 1 and not (ch >= "\x80" > folded) else ch
+
+
+def _canon(ch: str) -> str:
+    """ECMAScript's Canonicalize for case-insensitive matching without the u flag: the
+    upper-case mapping of the character, unless that is longer than one character or
+    takes a non-ASCII character to an ASCII one."""
+    return _upper(ch)
 
 
 class RegexTimeoutError(Exception):
@@ -261,7 +269,7 @@ class RegexVM:
 
                 ch = string[sp]
                 if self.ignorecase:
-                    match = ord(_lower(ch)) == char_code or ord(_upper(ch)) == char_code
+                    match = ord(ch) == char_code or _canon(ch) == _canon(chr(char_code))
                 else:
                     match = ord(ch) == char_code
 
@@ -363,8 +371,12 @@ class RegexVM:
                         if start <= ch_code <= end:
                             matched = True
                             break
-                        ch_upper = ord(_upper(ch))
-                        if start <= ch_upper <= end:
+                        ch_upper = _upper(ch)
+                        if start <= ord(ch_upper) <= end:
+                            matched = True
+                            break
+                        # (a class member with the same upper case: 'µ' and 'μ')
+                        if start <= ord(_lower(ch_upper)) <= end:
                             matched = True
                             break
                     else:
@@ -396,7 +408,10 @@ class RegexVM:
                     if start <= ch_code <= end:
                         matched = True
                         break
-                    if self.ignorecase and start <= ord(_upper(ch)) <= end:
+                    if self.ignorecase and (
+                        start <= ord(_upper(ch)) <= end
+                        or start <= ord(_lower(_upper(ch))) <= end
+                    ):
                         # Check both cases, like the positive class does
                         matched = True
                         break
@@ -550,7 +565,7 @@ class RegexVM:
                     continue
 
                 if all(
-                    _lower(x) == _lower(y)
+                    x == y or _canon(x) == _canon(y)
                     for x, y in zip(string[sp : sp + len(captured)], captured)
                 ):
                     sp += len(captured)
